@@ -76,7 +76,27 @@ func c17case(c *Ctx, addrTmpl, kind string) {
 	port := freePort()
 	addr := strings.ReplaceAll(addrTmpl, "PORT", fmt.Sprint(port))
 	var holder net.Listener
-	if kind == "in-use" {
+	heldByGldap := false
+	if kind == "in-use-by-gldap" {
+		// the port is held by another gldap server of this process (a daemon started twice)
+		other, err := gldap.NewServer(gldap.WithLogger(quietLogger))
+		if err != nil {
+			panic(err)
+		}
+		om, _ := gldap.NewMux()
+		_ = other.Router(om)
+		go func() { _ = other.Run(fmt.Sprintf("127.0.0.1:%d", port)) }()
+		for i := 0; !other.Ready() && i < 200000; i++ {
+			time.Sleep(50 * time.Microsecond)
+		}
+		if !other.Ready() {
+			return
+		}
+		defer stopBounded(other)
+		kind = "in-use"
+		heldByGldap = true
+	}
+	if kind == "in-use" && !heldByGldap {
 		var err error
 		holder, err = net.Listen("tcp", fmt.Sprintf("127.0.0.1:%d", port))
 		if err != nil {
@@ -85,6 +105,9 @@ func c17case(c *Ctx, addrTmpl, kind string) {
 		defer holder.Close()
 	}
 	rep := map[string]string{"addr": addrTmpl, "kind": kind, "others": others}
+	if heldByGldap {
+		rep["kind"] = "in-use-by-gldap"
+	}
 	srv, err := gldap.NewServer(gldap.WithLogger(quietLogger))
 	if err != nil {
 		panic(err)
@@ -186,6 +209,15 @@ func c17case(c *Ctx, addrTmpl, kind string) {
 		if strings.HasPrefix(dial, "::1:") {
 			dial = "[::1]:" + fmt.Sprint(port)
 		}
+		switch others {
+		case "router-nil":
+			// a rejected call must not disturb the running server
+			if err := srv.Router(nil); err == nil {
+				c.Report("Server.Router(nil) is accepted", addr, rep)
+			}
+		case "router-again":
+			_ = srv.Router(mux)
+		}
 		var held []net.Conn
 		for i := 0; others != "" && i < map[string]int{"silent1": 1, "silent2": 2, "partial": 1}[others]; i++ {
 			c.Count("steps", 1)
@@ -231,7 +263,7 @@ func c17case(c *Ctx, addrTmpl, kind string) {
 			c.Outcome("valid: not served")
 			key := "a connection made after Ready reported true is not served"
 			if others != "" {
-				key += " while another client is connected and " + map[string]string{"silent1": "silent", "silent2": "silent", "partial": "half-way through a request"}[others]
+				key += map[string]string{"silent1": " while another client is connected and silent", "silent2": " while another client is connected and silent", "partial": " while another client is connected and half-way through a request", "router-nil": " after a rejected Router(nil) call", "router-again": " after the router was set again"}[others]
 			}
 			c.Report(key, fmt.Sprintf("addr %q: %v", addr, berr), rep)
 			return
@@ -267,14 +299,14 @@ func c17run(c *Ctx) {
 	for _, t := range mal {
 		cases = append(cases, a{t, "malformed"})
 	}
-	for _, o := range []string{"silent1", "silent2", "partial"} {
+	for _, o := range []string{"silent1", "silent2", "partial", "router-nil", "router-again"} {
 		cases = append(cases, a{"127.0.0.1:PORT", "valid+" + o}, a{":PORT", "valid+" + o})
 	}
 	for _, t := range []string{"127.0.0.1:99999", "127.0.0.1:abc", "127.0.0.1:-1", "192.0.2.77:PORT"} {
 		cases = append(cases, a{t, "unlistenable"})
 	}
 	for _, t := range []string{"127.0.0.1:PORT", ":PORT", "localhost:PORT"} {
-		cases = append(cases, a{t, "in-use"})
+		cases = append(cases, a{t, "in-use"}, a{t, "in-use-by-gldap"})
 	}
 	reps := 3
 	if c.Thorough() {
@@ -282,7 +314,7 @@ func c17run(c *Ctx) {
 	}
 	for _, cs := range cases {
 		n := 1
-		if strings.HasPrefix(cs.kind, "valid") || cs.kind == "in-use" {
+		if strings.HasPrefix(cs.kind, "valid") || strings.HasPrefix(cs.kind, "in-use") {
 			n = reps // the Ready => connectable cross-check is repeated
 		}
 		for i := 0; i < n; i++ {
